@@ -307,12 +307,13 @@ impl Account {
 }
 
 fn hash_contacts(contacts: &[contact::AccountContact]) -> Vec<u8> {
-	let msg = contacts
-		.iter()
-		.map(|v| v.to_string())
-		.collect::<Vec<String>>()
-		.join("")
-		.into_bytes();
+	// Each contact is preceded by its length so that two different lists never yield the same message.
+	let mut msg = Vec::new();
+	for contact in contacts {
+		let s = contact.to_string();
+		msg.extend_from_slice(&(s.len() as u64).to_be_bytes());
+		msg.extend_from_slice(s.as_bytes());
+	}
 	HashFunction::Sha256.hash(&msg)
 }
 
